@@ -1,13 +1,51 @@
 (** C03 — Verification decides exactly as the specification (strict decoding, bounds).
-    Only property theorems here, closed by [exact] of lemmas proved in PSignStruct.v.
-    PROVED (for every parameter record with gamma1 in {2^17, 2^19}, every byte string offered as a signature, every
-    message and key): acceptance implies the exact length, a hint section accepted by the strict decoder, a decoded
-    response with ||z||_inf < gamma1 - beta, and equality of the received challenge with the recomputed one over ALL
-    its bytes; conversely a malformed hint section, a too large z coefficient or any challenge mismatch forces
-    rejection. NOT a Coq theorem: that the recomputed challenge (the model's NTT-domain pipeline [verify_w1]) equals
-    FIPS 204's ring expression UseHint(h, Az - c t1 2^d) — that identification is checked by executing model, crate and
-    an independent implementation of Verify_internal on generated and crafted signatures (see evidence). *)
-From DV Require Import Base MReduce MParams MPoly MPolyvec MPacking MSign MApi PNorm PSignStruct.
+    Only property theorems here, closed by [exact] of lemmas proved in PVerifySpec.v / PSignStruct.v.
+    [S_verify P pk m sig b] (PVerifySpec.v) transcribes Dilithium 3.1 Verify / FIPS 204 Verify_internal (Alg. 8):
+    pkDecode; sigDecode (ctilde, z by BitUnpack, h by HintBitUnpack, bottom when malformed); wrong length or h = bottom or
+    ||z|| >= gamma1 - beta -> false; A^ = ExpandA(rho); mu = H(H(pk) || M'); c = SampleInBall(ctilde);
+    w' in [0,q)^256 with NTT(w') = A^ o NTT(z) - NTT(c) o NTT(t1 2^d); w1' = UseHint(h, w'); accept iff
+    ctilde = H(mu || w1Encode(w1')). NTT is evaluation at the roots (injective mod q); the two samplers are relational
+    (termination unprovable). PROVED for the six parameter sets and ANY bytes offered as signature, message, key of the
+    right length: whenever verification returns, it returns the specification's decision, and that decision is unique. *)
+From DV Require Import Base MReduce MParams MPoly MPolyvec MPacking MSign MApi PNorm PSignStruct PTape PVerifySpec.
+
+Theorem C03_verify_is_the_specification : forall (P : params) (sig m pk : list Z) (b : bool),
+  std P -> Forall is_byte sig -> Forall is_byte m -> Forall is_byte pk -> zlen pk = pPK P ->
+  verify P sig m pk = Ok b -> S_verify P pk m sig b.
+Proof. exact verify_spec. Qed.
+Print Assumptions C03_verify_is_the_specification.
+
+Theorem C03_specification_prescribes_one_decision : forall (P : params) (pk m sig : list Z) (b b' : bool),
+  S_verify P pk m sig b -> S_verify P pk m sig b' -> b = b'.
+Proof. exact S_verify_functional. Qed.
+Print Assumptions C03_specification_prescribes_one_decision.
+
+(** total form: out of sampler fuel, or exactly the specification's (unique) decision *)
+Theorem C03_decision : forall (P : params) (sig m pk : list Z),
+  std P -> Forall is_byte sig -> Forall is_byte m -> Forall is_byte pk -> zlen pk = pPK P ->
+  verify P sig m pk = OutOfFuel \/
+  exists b, verify P sig m pk = Ok b /\ S_verify P pk m sig b /\ forall b', S_verify P pk m sig b' -> b' = b.
+Proof. exact verify_decision. Qed.
+Print Assumptions C03_decision.
+
+(** it accepts every specification-valid signature (boundary cases, other conforming signers included) *)
+Theorem C03_accepts_every_spec_valid_signature : forall (P : params) (sig m pk : list Z) (b : bool),
+  std P -> Forall is_byte sig -> Forall is_byte m -> Forall is_byte pk -> zlen pk = pPK P ->
+  S_verify P pk m sig true -> verify P sig m pk = Ok b -> b = true.
+Proof. exact verify_accepts_spec_valid. Qed.
+Print Assumptions C03_accepts_every_spec_valid_signature.
+
+(** the API entry points decide as the specification on the framed message *)
+Theorem C03_api_is_the_specification :
+  (forall (P : params) (pk msg sig : list Z) (b : bool),
+     std P -> Forall is_byte sig -> Forall is_byte msg -> Forall is_byte pk -> zlen pk = pPK P ->
+     dil_verify P pk msg sig = Ok b -> S_verify P pk msg sig b) /\
+  (forall (P : params) (pk msg sig : list Z) (ctx : option (list Z)) (b : bool),
+     std P -> Forall is_byte sig -> Forall is_byte msg -> Forall is_byte pk -> zlen pk = pPK P -> PTotal.ctx_is_bytes ctx ->
+     ml_verify P pk msg sig ctx = Ok b ->
+     if ctx_too_long ctx then b = false else S_verify P pk (frame_pure ctx msg) sig b).
+Proof. split; [exact dil_verify_spec | exact ml_verify_spec]. Qed.
+Print Assumptions C03_api_is_the_specification.
 
 Theorem C03_accept_implies_strict :
   forall (P : params) (sig m pk : list Z),
